@@ -215,8 +215,9 @@ CHECKS = {
             dict(pkg=COMPOSITE, test="TestVerifC20", shards=dict(quick=8, thorough=16), budget=dict(quick=600, thorough=3000)),
             dict(pkg=DECORATOR, test="TestVerifC20", shards=dict(quick=8, thorough=16), budget=dict(quick=600, thorough=3000)),
             dict(pkg=COMPOSITE, test="TestVerifC20Workers", shards=dict(quick=2, thorough=4), budget=dict(quick=600, thorough=1200)),
+            dict(pkg=DECORATOR, test="TestVerifC20Workers", shards=dict(quick=2, thorough=4), budget=dict(quick=600, thorough=1200)),
         ],
-        assumptions=SIM_ASSUMPTIONS + ["controller-runtime's fake client serves the controller objects and CRDs; in the behavioural units numWorkers=0 and the harness is the worker of every hosted instance; the worker life-cycle unit (TestVerifC20Workers, numWorkers=2, all event sequences to depth 3 on one name) asserts only structural facts: goroutine census never above 2 x running instances right after an event, and eventually equal"],
+        assumptions=SIM_ASSUMPTIONS + ["controller-runtime's fake client serves the controller objects and CRDs; in the behavioural units numWorkers=0 and the harness is the worker of every hosted instance; the worker life-cycle unit (TestVerifC20Workers, numWorkers=2, all event sequences to depth 3 on one name) asserts only structural facts: goroutine census never above 2 x running instances right after an event, and eventually equal; and, for every sequence whose last event stops a running instance, with one worker held inside its sync hook: the reconciler must not return before that worker is done"],
         traces_are_evals=False,
     ),
 }
